@@ -146,8 +146,8 @@ def oracle(line, out):
         want = payload(want_v, depth, fpb, index, unhex(chain), key33)
         if pl != want:
             return "78-byte payload differs from the BIP32 layout"
-        if which == "pub" and cls == "P" and k.to_bytes(32, "big") in pl:
-            return "serialised extended PUBLIC key contains the private scalar"
+        if which == "pub" and cls == "P" and (pl[46:78] == k.to_bytes(32, "big") or pl[45:78] == b"\x00" + k.to_bytes(32, "big")):
+            return "serialised extended PUBLIC key carries the private scalar in its key field"
         # parse back (string form) and re-serialise
         klass = "P" if which == "prv" else "p"
         back = impl.run("xk_parse %s %s s %s" % (klass, t, v))
